@@ -241,6 +241,8 @@ pub struct Model<'a> {
     last_simple: Option<(StmtId, u32, bool)>,
     /// header line of the block statement whose failure is being handled
     header_part: Option<usize>,
+    /// a handler was left by RETURN: judge the next statement start, then stop
+    stop_after_next: bool,
     /// tag of the segment matched last (classification of what follows a file value)
     prev_seg_tag: Option<Tag>,
     /// the unhandled error that ends the program was raised by this header line
@@ -324,6 +326,7 @@ impl<'a> Model<'a> {
             pending_errors_used: HashMap::new(),
             last_simple: None,
             header_part: None,
+            stop_after_next: false,
             prev_seg_tag: None,
             abort_header_part: None,
         }
@@ -796,6 +799,11 @@ impl<'a> Model<'a> {
     }
 
     fn handle_failure(&mut self, s: &'a Stmt, failure: Failure) -> R<Recovery> {
+        if self.stop_after_next {
+            return Err(Stop::Early(
+                "a handler was left by RETURN instead of RESUME".into(),
+            ));
+        }
         let occ = *self.occ.get(&s.id).unwrap_or(&0);
         // the implementation must have raised an error in this very statement execution
         let used = *self.pending_errors_used.get(&(s.id, occ)).unwrap_or(&0);
@@ -941,7 +949,11 @@ impl<'a> Model<'a> {
                 // the handler runs in the main module's scope
                 let saved_frames = std::mem::take(&mut self.frames);
                 let mut global = saved_frames[0].clone();
-                global.gosub_depth = 0;
+                // the GOSUBs of the interrupted code are the handler's to RETURN from when
+                // the error was raised in the main module itself (no call in between)
+                let interrupted_at_main = saved_frames.len() == 1;
+                let pending_gosubs = saved_frames[0].gosub_depth;
+                global.gosub_depth = if interrupted_at_main { pending_gosubs } else { 0 };
                 self.frames = vec![global];
                 let main: &'a [Stmt] = &self.sc.main;
                 let idx = match Self::find_label(main, &h) {
@@ -978,6 +990,17 @@ impl<'a> Model<'a> {
                     Flow::End => Ok(Recovery::Flow(Flow::End)),
                     Flow::Next => Ok(Recovery::Flow(Flow::End)),
                     Flow::Abort(c, st, sites) => Ok(Recovery::Flow(Flow::Abort(c, st, sites))),
+                    Flow::Return(None) if interrupted_at_main && pending_gosubs > 0 => {
+                        // "RETURN continues after the most recent GOSUB not yet returned
+                        // from": the handler's RETURN takes the interrupted code's GOSUB.
+                        // What state a handler that was never RESUMEd leaves behind, nobody
+                        // says: the statement the program continues with is judged, nothing
+                        // after it.
+                        self.probe("handler_left_by_return");
+                        self.frames[0].gosub_depth = gd - 1;
+                        self.stop_after_next = true;
+                        Ok(Recovery::Flow(Flow::Return(None)))
+                    }
                     other => Err(Stop::Early(format!("handler ended in {:?}", other))),
                 }
             }
@@ -1022,6 +1045,11 @@ impl<'a> Model<'a> {
         match self.stmt_events.get(self.stmt_ev_idx) {
             Some((id, o)) if *id == s.id && *o == occ => {
                 self.stmt_ev_idx += 1;
+                if self.stop_after_next {
+                    return Err(Stop::Early(
+                        "a handler was left by RETURN instead of RESUME".into(),
+                    ));
+                }
                 Ok(occ)
             }
             Some((id, o)) => {
